@@ -561,6 +561,15 @@ impl Epoch {
 
         let s = s_in.trim();
 
+        if !s.is_ascii() {
+            // A Gregorian date, its offset and its time scale are only made of ASCII characters.
+            // The character indexes used below are only valid byte indexes for ASCII strings.
+            return Err(HifitimeError::Parse {
+                source: ParsingError::ISO8601,
+                details: "parsing as Gregorian",
+            });
+        }
+
         for (idx, char) in s.chars().enumerate() {
             if !char.is_numeric() || idx == s.len() - 1 {
                 if cur_token == Token::Timescale {
@@ -598,7 +607,13 @@ impl Epoch {
                         prev_token.value_ok(val)?;
                         // If these are the subseconds, we must convert them to nanoseconds
                         if prev_token == Token::Subsecond {
-                            if end_idx - prev_idx != 9 {
+                            if end_idx - prev_idx > 9 {
+                                // More digits than the nanosecond precision
+                                return Err(HifitimeError::Parse {
+                                    source: ParsingError::ISO8601,
+                                    details: "more than nine subsecond digits",
+                                });
+                            } else if end_idx - prev_idx != 9 {
                                 decomposed[pos] =
                                     val * 10_i32.pow((9 - (end_idx - prev_idx)) as u32);
                             } else {
